@@ -12,8 +12,10 @@
 //	read <shard>                               all points of all series ever written -> hexkey=t:v,..;..
 //	ls <shard>                                 series listed by the shard's index    -> hexkey,hexkey
 //	mn <auth> <cond>                           Store.MeasurementNames                -> hexname,...
-//	tk <auth> <shards> <cond>                  Store.TagKeys                         -> hexname=hexkey,..;..
-//	tv <auth> <shards> <cond>                  Store.TagValues                       -> hexname=hexk:hexv,..;..
+//	tk <auth> <shards> <nc> <kc> <filter>      Store.TagKeys                         -> hexname=hexkey,..;..
+//	tv <auth> <shards> <nc> <kc> <filter>      Store.TagValues                       -> hexname=hexk:hexv,..;..
+//	                                           cond = nc AND kc AND filter; nc / kc = "-" or E:-:<hexval> / N:-:<hexval>
+//	                                           (_name / _tagKey clause), filter = cond over plain tag keys
 //	wblock <shard> <hexname> <tags> <min> <max> <pred>   (C17 non-blocking clause, see c17)
 //
 // tags = hexk:hexv joined by ',' ("-" none).  auth = "-" (nil), "open" (query.OpenAuthorizer) or
@@ -178,9 +180,8 @@ func ParseTags(s string) (models.Tags, bool) {
 		}
 		tags = append(tags, models.Tag{Key: k, Value: v})
 	}
-	sort.Sort(tags)
 	for i := 1; i < len(tags); i++ {
-		if bytes.Equal(tags[i-1].Key, tags[i].Key) {
+		if bytes.Compare(tags[i-1].Key, tags[i].Key) >= 0 {
 			return nil, false
 		}
 	}
@@ -342,6 +343,56 @@ func parseCond(items []string, i *int) influxql.Expr {
 	return nil
 }
 
+// reservedKey: system names (a leading '_', except _name where allowed), the pseudo key "value", "".
+func reservedKey(allowName bool, k string) bool {
+	return (strings.HasPrefix(k, "_") && !(allowName && k == "_name")) || k == "value" || k == ""
+}
+
+func condKeysOK(e influxql.Expr, allowName bool) bool {
+	ok := true
+	influxql.WalkFunc(e, func(n influxql.Node) {
+		if v, isRef := n.(*influxql.VarRef); isRef && reservedKey(allowName, v.Val) {
+			ok = false
+		}
+	})
+	return ok
+}
+
+// parseClause: "-" or E:-:<hexval> / N:-:<hexval>  ->  <sysname> = / != 'val'
+func parseClause(s, sysname string) (influxql.Expr, bool) {
+	if s == "-" {
+		return nil, true
+	}
+	f := strings.Split(s, ":")
+	if len(f) != 3 || (f[0] != "E" && f[0] != "N") || f[1] != "-" {
+		return nil, false
+	}
+	v, err := h.UnHex(f[2])
+	if err != nil {
+		return nil, false
+	}
+	op := influxql.EQ
+	if f[0] == "N" {
+		op = influxql.NEQ
+	}
+	return &influxql.BinaryExpr{Op: influxql.Token(op), LHS: &influxql.VarRef{Val: sysname}, RHS: &influxql.StringLiteral{Val: string(v)}}, true
+}
+
+func andAll(es ...influxql.Expr) influxql.Expr {
+	var out influxql.Expr
+	for _, e := range es {
+		if e == nil {
+			continue
+		}
+		if out == nil {
+			out = e
+		} else {
+			out = &influxql.BinaryExpr{Op: influxql.AND, LHS: out, RHS: e}
+		}
+	}
+	return out
+}
+
 func ParseCond(s string) (influxql.Expr, bool) {
 	if s == "-" {
 		return nil, true
@@ -435,6 +486,9 @@ func (r *Runner) Op(t []string) string {
 		return "bad-op"
 	}
 	ctx := context.Background()
+	if r.NShard == 0 && t[0] != "open" {
+		return "bad-op"
+	}
 	switch {
 	case t[0] == "open" && len(t) == 2:
 		n := int(h.Atoi(t[1]))
@@ -533,7 +587,7 @@ func (r *Runner) Op(t []string) string {
 	case t[0] == "mn" && len(t) == 3:
 		auth, ok1 := ParseAuth(t[1])
 		cond, ok2 := ParseCond(t[2])
-		if !ok1 || !ok2 {
+		if !ok1 || !ok2 || (cond != nil && !condKeysOK(cond, true)) {
 			return "bad-op"
 		}
 		names, err := r.St.MeasurementNames(ctx, auth, DB, cond)
@@ -545,35 +599,42 @@ func (r *Runner) Op(t []string) string {
 			out[i] = h.Hex(n)
 		}
 		return h.Join(out)
-	case t[0] == "tk" && len(t) == 4:
+	case (t[0] == "tk" || t[0] == "tv") && len(t) == 6:
 		auth, ok1 := ParseAuth(t[1])
 		ids, ok0 := parseShards(t[2])
-		cond, ok2 := ParseCond(t[3])
-		if !ok0 || !ok1 || !ok2 {
+		nc, ok2 := parseClause(t[3], "_name")
+		kc, ok3 := parseClause(t[4], "_tagKey")
+		f, ok4 := ParseCond(t[5])
+		if !ok0 || !ok1 || !ok2 || !ok3 || !ok4 || len(ids) == 0 || (f != nil && !condKeysOK(f, false)) {
 			return "bad-op"
 		}
-		res, err := r.St.TagKeys(ctx, auth, ids, cond)
-		if err != nil {
-			return ErrEnum(err)
-		}
-		var parts []string
-		for _, tk := range res {
-			ks := make([]string, len(tk.Keys))
-			for i, k := range tk.Keys {
-				ks[i] = h.HexS(k)
+		any := false
+		for _, id := range ids {
+			if r.St.Shard(id) != nil {
+				any = true
 			}
-			parts = append(parts, h.HexS(tk.Measurement)+"="+h.Join(ks))
 		}
-		if len(parts) == 0 {
-			return "-"
-		}
-		return strings.Join(parts, ";")
-	case t[0] == "tv" && len(t) == 4:
-		auth, ok1 := ParseAuth(t[1])
-		ids, ok0 := parseShards(t[2])
-		cond, ok2 := ParseCond(t[3])
-		if !ok0 || !ok1 || !ok2 {
+		if !any {
 			return "bad-op"
+		}
+		cond := andAll(nc, kc, f)
+		if t[0] == "tk" {
+			res, err := r.St.TagKeys(ctx, auth, ids, cond)
+			if err != nil {
+				return ErrEnum(err)
+			}
+			var parts []string
+			for _, tk := range res {
+				ks := make([]string, len(tk.Keys))
+				for i, k := range tk.Keys {
+					ks[i] = h.HexS(k)
+				}
+				parts = append(parts, h.HexS(tk.Measurement)+"="+h.Join(ks))
+			}
+			if len(parts) == 0 {
+				return "-"
+			}
+			return strings.Join(parts, ";")
 		}
 		res, err := r.St.TagValues(ctx, auth, ids, cond)
 		if err != nil {
